@@ -3,6 +3,7 @@
   each conversion of the generated/hand model equals a closed integer expression.
 -/
 import NiVerif.Model.Conv
+import NiVerif.Model.Mixed
 import NiVerif.Proofs.Bits
 
 namespace Proofs.Conv
@@ -40,7 +41,6 @@ theorem dt_to_bt (us : Int) (h : Py.dtTdInRange us) : btOfDt us = .ok (us * T / 
   unfold btOfDt dtFields
   have e : to_ticks_dt (us / 86400000000) (us % 86400000000 / 1000000) (us % 1000000) = us * T / M := by
     py_norm
-    rw [Proofs.floorDiv_pos _ _ (by decide)]
     unfold T M
     have h1 : us * 18446744073709551616
         = us % 1000000 * 18446744073709551616 + 1000000 * (us / 1000000 * 18446744073709551616) := by omega
@@ -103,5 +103,39 @@ theorem ht_to_bt_in_range (ys : Int) (h : Py.htTdInRange ys) : btOfHt ys = .ok (
   py_norm
   generalize btTicksOfHt ys = b at *
   py_cases
+
+/-- bintime → hightime → bintime is the identity -/
+theorem bt_ht_bt (t ys : Int) (h : htOfBt t = .ok ys) : btTicksOfHt ys = t := by
+  rw [bt_to_ht] at h; split at h
+  · injection h with h; subst h
+    have hb := ht_to_bt_nearest (t * Y / T)
+    unfold T Y at *
+    generalize btTicksOfHt _ = b at *
+    omega
+  · cases h
+
+
+section Abs
+open Model.Mixed
+/-- bintime → hightime → bintime is the identity on absolute times -/
+theorem btdt_ht_btdt (t q : Int) (h : htOfBtDt t = .ok q) : btDtOfHt q = .ok t := by
+  unfold htOfBtDt at h
+  cases hd : htOfBt t with
+  | error e => rw [hd] at h; cases h
+  | ok y =>
+    rw [hd] at h; simp only [Proofs.bind_ok] at h
+    split at h
+    · injection h with h; subst h
+      have hb := bt_ht_bt t y hd
+      have hy : Py.htTdInRange y := by
+        rw [bt_to_ht] at hd; split at hd
+        · rename_i hr; injection hd with hd; subst hd; exact hr
+        · cases hd
+      unfold btDtOfHt
+      have e : HT_EPOCH + y - HT_EPOCH = y := by omega
+      rw [e, ht_to_bt_in_range y hy, hb]
+    · cases h
+
+end Abs
 
 end Proofs.Conv
